@@ -317,17 +317,20 @@ func TestRaceMetrics(t *testing.T) {
 			}
 		}(k)
 	}
-	go func() {
-		for {
-			select {
-			case <-stop:
-				return
-			default:
-				rec := httptest.NewRecorder()
-				http.DefaultServeMux.ServeHTTP(rec, httptest.NewRequest("GET", "/metrics", nil))
+	// two collectors scrape at the same time
+	for s := 0; s < 2; s++ {
+		go func() {
+			for {
+				select {
+				case <-stop:
+					return
+				default:
+					rec := httptest.NewRecorder()
+					http.DefaultServeMux.ServeHTTP(rec, httptest.NewRequest("GET", "/metrics", nil))
+				}
 			}
-		}
-	}()
+		}()
+	}
 	wg.Wait()
 	close(stop)
 }
